@@ -148,6 +148,9 @@ func (t *Transaction) Validate() error {
 	} else if t.Input == (TypedAddressAmountTuple{}) { // TODO: is there a better way to check for zero value struct?
 		return fmt.Errorf("invalid input: empty")
 	}
+	if t.Input.Type <= PTickerInvalid || PTickerMax <= t.Input.Type {
+		return fmt.Errorf("invalid input: invalid token type")
+	}
 	if len(t.Transfers) == 0 && t.Conversion == PTickerInvalid {
 		return fmt.Errorf("at least one transfer or exactly one conversion type required")
 	} else if 0 < len(t.Transfers) && PTickerInvalid < t.Conversion {
